@@ -115,7 +115,7 @@ def rule_changelist(P):
         nbad = 0
         for old in [a | b | c for a in (0, R_) for b in (0, W_) for c in (0, C_)]:
             for evbits in [a | b | c | d for a in (0, R_) for b in (0, W_) for c in (0, C_) for d in (0, ET_)]:
-                for prior in (0, ADD, DEL | ET_):
+                for prior in (0, ADD, DEL, DEL | ET_, ADD | ET_):
                     env = {oldp: old, evp: evbits, kold: old, k["read_change"]: prior, k["write_change"]: prior, k["close_change"]: prior, "change": 1}
                     def hook(el, e_):
                         if callee_name(el.e) == "event_changelist_get_or_construct":
